@@ -6,6 +6,7 @@ hashes by the documented algorithm; invariance over subsets of sub-calls memoize
 import collections
 import itertools
 import json
+import os
 
 from vf import core, domain, env, trees
 
@@ -113,6 +114,18 @@ def run_case(case):
                     e = entries[k]
                     if e.fail != "transient":
                         fn_of(e).forget(*call_args(e, tid))
+            unreadable = False
+            if si % 5 == 4 and S:
+                # the sub-calls left memoized keep their mementos but lose their result data (a store copied without
+                # its data directory, a pruned volume): the run falls back to recomputing them
+                import shutil
+
+                for droot in (sc.path("d%d" % si), sc.path("c%d" % si)):
+                    shutil.rmtree(os.path.join(droot, "c", ".versions"), ignore_errors=True)
+                env.set_env(sc.path("env%db" % si), default_storage=env.fs_backend(sc.path("d%d" % si), cache_mb=cache),
+                            clusters={"c": env.fs_backend(sc.path("c%d" % si), cache_mb=cache)})
+                unreadable = True
+                out["obs"]["subset_runs_with_unreadable_results"] += 1
             mark = REC.mark()
             invoke_root()
             ran = {(ev[1][0], ev[1][2], ev[1][4]) for ev in REC.since(mark)}
@@ -124,8 +137,10 @@ def run_case(case):
                 out["nontrivial"].append("%s:%d" % (tid, si))
             out["obs"]["sub_calls_served_from_store"] += len(served)
             compare_all(out, fail, entries, recomputed, tid,
-                        "memoized beforehand: %s (%s, %s)" % (sorted(entries[k].node for k in S), "batch" if batch_mode else "single",
-                                                             "cache" if cache else "no cache"), batch_mode)
+                        "memoized beforehand: %s%s (%s, %s)" % (sorted(entries[k].node for k in S),
+                                                               ", their result data removed" if unreadable else "",
+                                                               "batch" if batch_mode else "single",
+                                                               "cache" if cache else "no cache"), batch_mode)
         out["sample"] = {"tree": tree, "subsets": len(subsets)}
     out["obs"] = dict(out["obs"])
     out["sets"] = {k: sorted(v) for k, v in out["sets"].items()}
@@ -152,5 +167,5 @@ def compare_all(out, fail, entries, which, tid, label, batch_mode):
 
 
 def conclude(agg):
-    return core.first(core.need(agg, "records_compared", 300), core.need(agg, "sub_calls_served_from_store", 100),
+    return core.first(core.need(agg, "records_compared", 300), core.need(agg, "sub_calls_served_from_store", 100), core.need(agg, "subset_runs_with_unreadable_results", 30),
                       None if len(agg.sets.get("step_kinds", ())) >= 8 else "too few step kinds"), {}
